@@ -3760,9 +3760,12 @@ def run(ctx: Ctx) -> None:
         "alphabet_members_without_a_python_function": sorted(k for k, ok in rt.members.items() if not ok),
         "floor": f"each of {valued} returns a value inside a journal >= {FLOOR} times; >= 45 distinct public callables",
     }
-    if low_v or len(seen_pub) < 45:
+    # (a floor missed on an implementation that already shows failures / disagreements must not turn the verdict into
+    # an infrastructure error: a changed /repo can take the families' operations another way)
+    clean = not ctx.failures and not ctx.disagreements
+    if clean and (low_v or len(seen_pub) < 45):
         raise Infra(f"public-call floor not met: value-returning calls inside a journal {low_v}; distinct public callables {len(seen_pub)} (< 45)")
-    if low_e or low_f:
+    if clean and (low_e or low_f):
         raise Infra(f"family floor not met: container operations on a graph / function with zero nodes inside a journal {low_e}; {low_f}")
 
 
